@@ -41,6 +41,14 @@ CLAIMS.update({
    design="3/C17"),
 })
 
+CLAIMS.update({
+ 'C10': dict(
+   text="Explicit-state breadth-first search (X2) over the real hpack::Encoder, cloned per transition through the verif hook: events are every list of <= 2 (quick) / 3 (thorough) items from a 17-item alphabet built to force the table's paths (static full/name match, dynamic pseudo, same name/different value chains, sensitive, skip-value-index, names colliding in the robin-hood index modulo 8 and 16, value > 3/4 of the table, empty value, elided repeated names) and update_max_size(v); with limits {0,40,90,130} the canonical state space (index normalised by `inserted`) closes and is searched to fixpoint (exhaustive), with the default 4096 table it is depth-bounded. Every emitted block is decoded by the strict RFC 7541 reference and by h2's own decoder and compared with the submitted fields; reductions must be signalled at the start of the next block. Plus every CONTINUATION split limit through the real Headers::encode/Continuation::encode (X3).",
+   note="Trusted: h2wire reference decoder; canonicalisation argument (behaviour depends on index+inserted only). Items outside the alphabet, deeper histories on the 4096-byte table not covered.",
+   tech="explicit-state BFS to fixpoint over the real encoder with a reference decoder as oracle on every transition",
+   design="3/C10"),
+})
+
 NOT_YET = "check not built yet (work in progress; DESIGN.md section 3 describes the planned harness)"
 NA = {}
 
